@@ -191,24 +191,27 @@ IL(T, D, raise) ==
     [] T.k = "su"  -> IFold(T, D, raise, [i \in 1..Len(T.ms) |-> IL(T.ms[i].t, D, raise)])
 
 (* whole-object sanity of the declarative layout itself *)
-Extent(T, i, raise) ==    \* bit interval [lo, hi) occupied by member i
-  LET f == DL(T, raise).fs[i] m == T.ms[i] IN
+Extent(T, D, ML, i) ==    \* bit interval [lo, hi) occupied by member i; D = DL(T, r), ML[i] = DL(T.ms[i].t, r)
+  LET f == D.fs[i] m == T.ms[i] IN
   IF IsBF(m) THEN [lo |-> 8 * f.off + f.bo, hi |-> 8 * f.off + f.bo + m.w]
-  ELSE [lo |-> 8 * f.off, hi |-> 8 * (f.off + DL(m.t, raise).size)]
+  ELSE [lo |-> 8 * f.off, hi |-> 8 * (f.off + ML[i].size)]
 
 DeclSane(T, raise) ==
-  LET D == DL(T, raise) n == Len(T.ms) IN
-  /\ \A i \in 1..n : LET m == T.ms[i] f == D.fs[i] ml == DL(m.t, raise) IN
+  LET n == Len(T.ms)
+      ML == [i \in 1..n |-> DL(T.ms[i].t, raise)]
+      D == DFold(T, raise, ML)
+      X == [i \in 1..n |-> Extent(T, D, ML, i)]
+  IN
+  /\ \A i \in 1..n : LET m == T.ms[i] f == D.fs[i] ml == ML[i] IN
         /\ ~IsBF(m) => /\ f.off % Max(IF T.pk THEN 1 ELSE ml.align, m.al) = 0          \* offsets aligned
                        /\ f.off + ml.size <= D.size
         /\ IsBF(m)  => /\ f.off % ml.size = 0                                          \* storage unit naturally aligned
                        /\ f.bo + m.w <= 8 * ml.size                                    \* inside one storage unit
-                       /\ (m.w > 0 => f.off + ml.size <= D.size \/ 8 * D.size >= 8 * f.off + f.bo + m.w)
-  /\ ~T.un => \A i, j \in 1..n : i < j => Extent(T, i, raise).hi <= Extent(T, j, raise).lo   \* declaration order, no overlap
-  /\ T.un => \A i \in 1..n : Extent(T, i, raise).lo = 0
+                       /\ 8 * D.size >= X[i].hi
+  /\ ~T.un => \A i \in 1..(n - 1) : X[i].hi <= X[i + 1].lo /\ X[i].lo <= X[i].hi        \* declaration order, no overlap
+  /\ T.un => \A i \in 1..n : X[i].lo = 0
   /\ D.size % D.align = 0
-  /\ \A i \in 1..n : RealMember(T.ms[i]) => D.align % Max(IF T.pk THEN 1 ELSE DL(T.ms[i].t, raise).align, T.ms[i].al) = 0
-
+  /\ \A i \in 1..n : RealMember(T.ms[i]) => D.align % Max(IF T.pk THEN 1 ELSE ML[i].align, T.ms[i].al) = 0
 
 (* ======================================================================= *)
 (* Flattening: every member at every depth with its absolute offset         *)
@@ -400,7 +403,9 @@ Inv_EnumRefine ==
 
 EnumCase ==
   LET d == EnumD(st.fixed, ms) i == EFinish(st) IN
-  [k |-> "enum", fixed |-> st.fixed, es |-> ms, cs |-> CharSigned, exp |-> d, mod |-> IF i = d THEN [same |-> TRUE] ELSE i,
+  [k |-> "enum", fixed |-> st.fixed, es |-> ms, cs |-> CharSigned,
+   exp |-> [ok |-> d.ok, base |-> d.base, size |-> IF d.ok THEN SSize(d.base) ELSE 0, signed |-> d.ok /\ ESigned(d.base)],
+   mod |-> IF i = d THEN [same |-> TRUE] ELSE i,
    devs |-> {x \in {"EnumFirstZeroUnsigned"} : EnumDevApplies(st.fixed, ms)}]
 
 Inv_EmitEnum ==
@@ -543,22 +548,19 @@ Inv_RefineStep ==     \* every prefix: what addmember stored = declarative offse
   (Mode # "enum" /\ phase = "build" /\ ~DevApplies(Current)) =>
      LET T == Current
          n == Len(ms)
-         \* declarative layout of the prefix seen as a packed-less "open" aggregate: use the fold state through a closed copy
-         D == DL(T, Raise)
+         ML == [i \in 1..n |-> DL(ms[i].t, Raise)]
+         D == DFold(T, Raise, ML)
      IN /\ \A i \in 1..n : MemberAgrees(ms[i], outs[i], D.fs[i])
         /\ Max(st.align, 1) = D.align
         /\ (HasMember => IFinish(st, Devs).size = D.size)
         /\ st.flex = D.flex
         /\ st.bits \in 0..7
+        \* the running bit position of the two sides agrees (struct): pos = 8*size - bits
+        /\ ~st.un => AbsPos(st) = (IF n = 0 THEN 0 ELSE Extent(T, D, ML, n).hi)
 
 Inv_RefineDone ==
   (Mode # "enum" /\ phase = "done" /\ Mode = "mc" /\ ~DevApplies(Current)) =>
      LET D == DL(Current, Raise) IN st.size = D.size /\ st.align = D.align
-
-(* the running bit position of the two sides agrees (struct): pos = 8*size - bits *)
-Inv_RefinePos ==
-  (Mode # "enum" /\ phase = "build" /\ ~st.un /\ ~DevApplies(Current)) =>
-     AbsPos(st) = (IF ms = <<>> THEN 0 ELSE Extent(Current, Len(ms), Raise).hi)
 
 Inv_DeclSane == (Mode # "enum" /\ phase = "build") => DeclSane(Current, FALSE) /\ DeclSane(Current, TRUE)
 
